@@ -468,6 +468,7 @@ func runTables(e *vlib.Env, r *vlib.Rand, ncases int) {
 			}
 		}
 		sessOf := map[int]*session{}
+		var sessOps []string // Set/ClearSession history, for replays
 		sessions := map[int]*session{}
 		nextSess := 1
 		for round := 0; round < 3; round++ {
@@ -495,6 +496,7 @@ func runTables(e *vlib.Env, r *vlib.Rand, ncases int) {
 						sessOf[id] = s
 					}
 					e.Op(fmt.Sprintf("set %d %d", id, s.id), ans, "set-"+ans)
+					sessOps = append(sessOps, fmt.Sprintf("set %d %d -> %s", id, s.id, ans))
 				} else {
 					err := rt.ClearSession(id)
 					ans := "ok"
@@ -504,6 +506,7 @@ func runTables(e *vlib.Env, r *vlib.Rand, ncases int) {
 						delete(sessOf, id)
 					}
 					e.Op(fmt.Sprintf("clr %d", id), ans, "clr-"+ans)
+					sessOps = append(sessOps, fmt.Sprintf("clr %d -> %s", id, ans))
 				}
 			}
 			// packets
@@ -540,7 +543,7 @@ func runTables(e *vlib.Env, r *vlib.Rand, ncases int) {
 				e.Op("rte "+pc.opRte, ans, t)
 				if want, ok := specRoute(c, classOf, sessOf, pc.dst, layer); ok && want != got {
 					e.Violate("C42/route", fmt.Sprintf("RoutingTable returned session %d, the most specific prefix's first matching class has %d", got, want),
-						map[string]any{"table": line, "packet": pc.opRte})
+						map[string]any{"table": line, "sessions": append([]string(nil), sessOps...), "packet": pc.opRte})
 				}
 			}
 			// through IPForwarder.Run
@@ -623,7 +626,7 @@ func runTables(e *vlib.Env, r *vlib.Rand, ncases int) {
 				}
 				if want != out {
 					e.Violate("C42/forward", fmt.Sprintf("forwarder did %q, statement requires %q", out, want),
-						map[string]any{"table": line, "packet": pc.op})
+						map[string]any{"table": line, "sessions": append([]string(nil), sessOps...), "packet": pc.op})
 				}
 			}
 		}
@@ -961,7 +964,7 @@ func main() {
 		"policies: 0-6 rules over ISD-AS wildcards/negations, prefix lists (v4, v6, unmasked, 4in6), all actions; queries probe the " +
 		"edges of every prefix involved; 75% of the policies go through MarshalText/UnmarshalText and are queried again. " +
 		"distinct = distinct op lines with a non-trivial tag"
-	runTables(e, r, e.N(1500, 30000))
-	runPolicies(e, r, e.N(2500, 50000))
+	runTables(e, r, e.N(1500, 15000))
+	runPolicies(e, r, e.N(2500, 25000))
 	e.Finish()
 }
